@@ -167,8 +167,7 @@ def alphabet(bins, backed, allow_remesh=True):
     for p in range(7):
         ops.append(dict(op="update", p=p))
     ops.append(dict(op="backup"))
-    if backed:
-        ops.append(dict(op="revert"))
+    ops.append(dict(op="revert"))        # always legal: without a backup it returns to the fresh grid of the last full reset
     ops += [dict(op="load", data=LOAD_DATA), dict(op="loadfn", c=Fr(2)), dict(op="moments")]
     ops += [dict(op="recon"), dict(op="recoff"), dict(op="recreset"), dict(op="recremove")]
     ops += [dict(op="settime", t=Fr(0)), dict(op="settime", t=Fr(3, 2)), dict(op="settime", t=Fr(100))]
@@ -283,7 +282,7 @@ def gen_histories(rng, tier):
                 prev = out["steps"][-2] if len(out["steps"]) > 1 else out["init"]
                 nb, nu, npv = backed, ugly, prev_ugly
                 if k == "backup": nb, npv = True, ugly
-                if k in ("reset", "change", "adjust"): nb = False
+                if k == "reset" and op.get("rb"): nb = False
                 if k == "change" and not op["reset"]:
                     nu = last["bounds"] != prev["bounds"]
                 elif k == "adjust":
@@ -305,9 +304,9 @@ def gen_histories(rng, tier):
             seq.append(op)
             k = op["op"]
             if k == "backup": backed, prev_ugly = True, ugly
-            elif k == "reset" or k == "change": backed = False
+            elif k == "reset": backed = False
             if k == "change" and not op["reset"]: ugly = True
-            elif k == "adjust": ugly = True; backed = False
+            elif k == "adjust": ugly = True
             elif k in ("update", "load", "loadfn", "reset") or (k == "change" and op["reset"]): ugly = False
             elif k == "revert": ugly = prev_ugly
             elif k == "settime": ugly = True
@@ -322,6 +321,16 @@ def gen_histories(rng, tier):
                 for t in (Fr(1, 2), Fr(1), Fr(5, 4), Fr(3, 2), Fr(2), Fr(100)):
                     hist.append((cfg, [dict(op="recon"), dict(op="update", p=p1), dict(ch), dict(op="update", p=p2), dict(op="settime", t=t)]))
                 hist.append((cfg, [dict(op="recon"), dict(op="update", p=p1), dict(ch), dict(op="update", p=p2), dict(op="settime", t=Fr(3, 2)), dict(op="add", k=1)]))
+    # moment functions around every way of REPLACING the grid without changing the class count: re-mesh to another range with the
+    # same number of classes, then back through a recorded state / the backup; moments are evaluated before, in between and after
+    mo = dict(op="moments")
+    same = [dict(op="change", a=Fr(0), b=Fr(12), n=0, reset=False), dict(op="change", a=Fr(0), b=Fr(6), n=0, reset=False)]
+    for cfg in CONFIGS[:3]:
+        for ch in same:
+            for p1 in (4, 3):
+                hist.append((cfg, [dict(op="recon"), dict(op="update", p=p1), mo, dict(ch), mo, dict(op="update", p=p1), mo, dict(op="settime", t=Fr(1)), mo]))
+                hist.append((cfg, [dict(op="update", p=p1), mo, dict(op="backup"), dict(ch), mo, dict(op="revert"), mo]))
+                hist.append((cfg, [dict(op="recon"), dict(op="update", p=p1), dict(ch), dict(op="update", p=p1), mo, dict(op="settime", t=Fr(3, 2)), mo, dict(op="reset", rb=True), mo]))
     # recording life cycle: every order of three recording operations followed by a query, on every configuration
     # (regression: enable, remove, query raised TypeError before fix 038111f)
     import itertools
